@@ -5,7 +5,7 @@
    fuel; the continuation [k] of the CPS-style model functions is specified by
    [Kspec]. *)
 From Coq Require Import List Arith Bool Lia.
-From Verif Require Import Base Syntax Sem SemLemmas Rewrite Side RwBase Rel.
+From Verif Require Import Base Syntax Sem SemLemmas Rewrite Side RwBase Rel TermSound Strict.
 Import ListNotations.
 
 Set Implicit Arguments.
@@ -932,6 +932,145 @@ Section C.
     - exists n. unfold Nseq. rewrite E. exact H.
   Qed.
 
+  (* ================= switches ================= *)
+  Notation exfrom := (exec_from aden cden tden kval yden env).
+  Notation expick := (exec_pick aden cden tden kval yden env).
+
+  (* a clause body that never completes with break or fallthrough *)
+  Definition nofb (b : list stmt) : Prop :=
+    forall n w w', ex n b w <> Some (CDone GBreak w') /\ ex n b w <> Some (CDone GFallthrough w').
+
+  Definition crelS (a a' : clabel * list stmt) : Prop :=
+    fst a = fst a' /\ sim (snd a) (snd a') /\ Forall srcok (snd a) /\ nofb (snd a).
+
+  Lemma flat_done x g w' : flat x = CDone g w' -> g <> GReturn -> x = CDone g w'.
+  Proof. destruct x; cbn; intros H Hg; try exact H. inversion H; subst. congruence. Qed.
+
+  Lemma norm_mono' n m (x : compl) r : n <= m -> norm n (Some x) = Some r -> norm m (Some x) = Some r.
+  Proof. intros. eapply norm_mono; eauto. Qed.
+
+  Lemma exfrom_sim d d' : Forall2 crelS d d' ->
+    forall n w x, exfrom n d w = Some x -> exists m x', exfrom m d' w = Some x' /\ norm m (Some x') = Some (flat x).
+  Proof.
+    intros Hd n w x H. destruct n as [|n]; [discriminate|]. rewrite exec_from_S in H.
+    inversion Hd as [|[lab b] [lab' b'] r r' [Hl [Hsim [Hsrc Hnofb]]] Hr]; subst.
+    - inversion H; subst. exists 2, (CDone GNormal w). split; reflexivity.
+    - cbn [fst snd] in *. subst lab'.
+      destruct (ex n b w) as [xb|] eqn:Eb; [|discriminate].
+      assert (x = xb).
+      { destruct xb as [g w'| | | |]; try (inversion H; reflexivity).
+        destruct g; try (inversion H; reflexivity); exfalso; destruct (Hnofb n w w') as [Hb1 Hb2]; first [apply Hb1; exact Eb|apply Hb2; exact Eb]. }
+      subst xb. clear H.
+      destruct (Hsim _ _ _ (N_flat _ _ Hsrc Eb)) as [m1 Hm1]. unfold RwBase.N in Hm1.
+      destruct (ex m1 b' w) as [xb'|] eqn:Eb'; [|discriminate].
+      exists (S m1), xb'. split.
+      + rewrite exec_from_S, Eb'. destruct xb' as [g w'| | | |]; try reflexivity.
+        destruct g; try reflexivity; exfalso; cbn in Hm1; inversion Hm1 as [Hf]; symmetry in Hf;
+          apply flat_done in Hf; try discriminate; subst x; destruct (Hnofb n w w') as [Hb1 Hb2]; first [apply Hb1; exact Eb|apply Hb2; exact Eb].
+      + eapply norm_mono'; [|exact Hm1]. lia.
+  Qed.
+
+  Lemma pick_clause_sim tv cs cs' : Forall2 crelS cs cs' ->
+    match pick_clause kval tv cs, pick_clause kval tv cs' with
+    | Some d, Some d' => Forall2 crelS d d'
+    | None, None => True
+    | _, _ => False
+    end.
+  Proof.
+    induction 1 as [|[lab b] [lab' b'] r r' Hc Hr IH]; cbn; auto.
+    pose proof Hc as [Hl _]. cbn in Hl. subst lab'.
+    destruct (clause_matches kval lab tv); [constructor; assumption|exact IH].
+  Qed.
+
+  Lemma default_from_sim cs cs' : Forall2 crelS cs cs' ->
+    match default_from cs, default_from cs' with
+    | Some d, Some d' => Forall2 crelS d d'
+    | None, None => True
+    | _, _ => False
+    end.
+  Proof.
+    induction 1 as [|[lab b] [lab' b'] r r' Hc Hr IH]; cbn; auto.
+    pose proof Hc as [Hl _]. cbn in Hl. subst lab'.
+    destruct lab; [constructor; assumption|exact IH|exact IH].
+  Qed.
+
+  Lemma expick_sim a a' : Forall2 crelS a a' -> forall n l l' w x, Forall2 crelS l l' ->
+    expick n a l w = Some x -> exists m x', expick m a' l' w = Some x' /\ norm m (Some x') = Some (flat x).
+  Proof.
+    intros Ha. induction n as [|n IH]; intros l l' w x Hl H; [discriminate|]. rewrite exec_pick_S in H.
+    inversion Hl as [|[lab b] [lab' b'] r r' Hc Hr]; subst.
+    - pose proof (default_from_sim Ha) as Hd.
+      destruct (default_from a) as [d|], (default_from a') as [d'|] eqn:Ed'; try contradiction.
+      + destruct (exfrom_sim Hd _ _ H) as [m [x' [Hx' Hn]]]. exists (S m), x'. split.
+        * rewrite exec_pick_S, Ed'. exact Hx'.
+        * eapply norm_mono'; [|exact Hn]. lia.
+      + inversion H; subst. exists 1, (CDone GNormal w). split; [rewrite exec_pick_S, Ed'; reflexivity|reflexivity].
+    - pose proof Hc as [Hlab _]. cbn in Hlab. subst lab'.
+      assert (Hskip : expick n a r w = Some x -> exists m x', expick m a' ((lab, b') :: r') w = Some x' /\ norm m (Some x') = Some (flat x)
+                                                   \/ True) by (intros; exists 0, x; right; exact I).
+      clear Hskip.
+      destruct lab as [|vs|cc].
+      + destruct (IH _ _ _ _ Hr H) as [m [x' [Hx' Hn]]]. exists (S m), x'. split; [rewrite exec_pick_S; exact Hx'|eapply norm_mono'; [|exact Hn]; lia].
+      + destruct (IH _ _ _ _ Hr H) as [m [x' [Hx' Hn]]]. exists (S m), x'. split; [rewrite exec_pick_S; exact Hx'|eapply norm_mono'; [|exact Hn]; lia].
+      + unfold lift in H. destruct (cden cc (fst w)) as [u bb|u pv|] eqn:Ec.
+        * destruct bb.
+          -- destruct (@exfrom_sim ((LCond cc, b) :: r) ((LCond cc, b') :: r') ltac:(constructor; assumption) _ _ _ H) as [m [x' [Hx' Hn]]].
+             exists (S m), x'. split; [rewrite exec_pick_S; unfold lift; rewrite Ec; exact Hx'|eapply norm_mono'; [|exact Hn]; lia].
+          -- destruct (IH _ _ _ _ Hr H) as [m [x' [Hx' Hn]]].
+             exists (S m), x'. split; [rewrite exec_pick_S; unfold lift; rewrite Ec; exact Hx'|eapply norm_mono'; [|exact Hn]; lia].
+        * inversion H; subst. exists 1, (CPanic (u, snd w) pv). split; [rewrite exec_pick_S; unfold lift; rewrite Ec; reflexivity|reflexivity].
+        * inversion H; subst. exists 1, CStuck. split; [rewrite exec_pick_S; unfold lift; rewrite Ec; reflexivity|reflexivity].
+  Qed.
+
+  Lemma norm_normR m x' r : norm m (Some x') = Some r -> normR x' r.
+  Proof. destruct x' as [g w'|sv w'|w'|w' pv|]; cbn; intros H; try (inversion H; reflexivity). exists m. exact H. Qed.
+
+  Lemma sim_switch tag cs cs' : Forall2 crelS cs cs' -> sim [SSwitch None tag cs] [SSwitch None tag cs'].
+  Proof.
+    intros Hc. rewrite sim_rel. intros w r H.
+    destruct (TM_single_inv H) as [x [[n Hx] Hr]].
+    assert (Hsrc : srcok (SSwitch None tag cs)).
+    { constructor; [intros y Hy; discriminate|]. clear - Hc. induction Hc as [|a a' l l' [_ [_ [Hs _]]] _ IH]; constructor; assumption. }
+    assert (r = flat x).
+    { destruct x as [g w'|sv w'|w'|w' pv|]; cbn in Hr; try exact Hr.
+      assert (sv = VSig GReturn) by (eapply exec_srcok_ret; eauto). subst sv.
+      destruct Hr as [k Hk]. destruct k; [discriminate|]. rewrite rung_sig in Hk. inversion Hk. reflexivity. }
+    subst r. destruct n as [|n]; [discriminate|]. rewrite exec_S in Hx. cbn [after_normal] in Hx.
+    assert (Hgoal : exists m x', exec m (SSwitch None tag cs') w = Some x' /\ norm m (Some x') = Some (flat x)).
+    { destruct tag as [t|].
+      - unfold lift in Hx. destruct (tden t (fst w)) as [u tv|u pv|] eqn:Et.
+        + pose proof (pick_clause_sim tv Hc) as Hp. pose proof (default_from_sim Hc) as Hd.
+          destruct (pick_clause kval tv cs) as [d|], (pick_clause kval tv cs') as [d'|] eqn:Ep'; try contradiction.
+          * destruct (exfrom_sim Hp _ _ Hx) as [m [x' [Hx' Hn]]]. exists (S m), x'. split; [|eapply norm_mono'; [|exact Hn]; lia].
+            rewrite exec_S. cbn [after_normal]. unfold lift. rewrite Et, Ep'. exact Hx'.
+          * destruct (default_from cs) as [d|], (default_from cs') as [d'|] eqn:Ed'; try contradiction.
+            -- destruct (exfrom_sim Hd _ _ Hx) as [m [x' [Hx' Hn]]]. exists (S m), x'. split; [|eapply norm_mono'; [|exact Hn]; lia].
+               rewrite exec_S. cbn [after_normal]. unfold lift. rewrite Et, Ep', Ed'. exact Hx'.
+            -- inversion Hx; subst. exists 1, (CDone GNormal (u, snd w)). split; [|reflexivity].
+               rewrite exec_S. cbn [after_normal]. unfold lift. rewrite Et, Ep', Ed'. reflexivity.
+        + inversion Hx; subst. exists 1, (CPanic (u, snd w) pv). split; [|reflexivity].
+          rewrite exec_S. cbn [after_normal]. unfold lift. rewrite Et. reflexivity.
+        + inversion Hx; subst. exists 1, CStuck. split; [|reflexivity].
+          rewrite exec_S. cbn [after_normal]. unfold lift. rewrite Et. reflexivity.
+      - destruct (expick_sim Hc _ _ Hc Hx) as [m [x' [Hx' Hn]]]. exists (S m), x'. split; [|eapply norm_mono'; [|exact Hn]; lia].
+        rewrite exec_S. cbn [after_normal]. exact Hx'. }
+    destruct Hgoal as [m [x' [Hx' Hn]]].
+    eapply TM_single; [exists m; exact Hx'|eapply norm_normR; exact Hn].
+  Qed.
+
+  Lemma sim_switch_init i tag cs rest : sim (SSwitch (Some i) tag cs :: rest) (i :: SSwitch None tag cs :: rest).
+  Proof.
+    rewrite sim_rel. intros w r H. destruct (TM_inv H) as [x [Hx Hr]].
+    eapply TM_intro; [|exact Hr]. clear Hr H.
+    destruct (EX_cons_inv Hx) as [y [[n Hy] Ha]].
+    destruct n as [|n]; [discriminate|]. rewrite exec_S in Hy. unfold after_normal in Hy.
+    destruct (exec n i w) as [yi|] eqn:Ei; [|discriminate].
+    eapply EX_cons; [exists n; exact Ei|].
+    destruct yi as [g w1| | | |]; cbn; try (inversion Hy; subst; exact Ha).
+    destruct g; try (inversion Hy; subst; exact Ha).
+    eapply EX_cons; [|exact Ha]. exists (S n). rewrite exec_S. exact Hy.
+  Qed.
+
   (* ================= supported statements (boolean, by fuel) ================= *)
   Lemma supp_S k s :
     supp (S k) s =
@@ -947,9 +1086,17 @@ Section C.
           | EElif x => is_if x && supp k x
           end
       | SFor i c p b => init_ok i && init_ok p && forallb (supp k) b
+      | SSwitch i t cs => init_ok i && forallb (fun lb => clause_ok (supp k) k (snd lb)) cs
       | _ => false
       end.
   Proof. reflexivity. Qed.
+
+  Lemma clause_ok_inv sup k b : clause_ok sup k b = true ->
+    forallb sup b = true /\ forallb (fitsb k) b = true /\ has_break (S k) (SBlock b) = false /\ forallb (okb k true true false) b = true.
+  Proof.
+    unfold clause_ok. intros H. apply andb_prop in H. destruct H as [H H4]. apply andb_prop in H. destruct H as [H H3].
+    apply andb_prop in H. destruct H as [H1 H2]. apply negb_true_iff in H3. auto.
+  Qed.
 
   Lemma init_ok_srcok i : init_ok i = true -> forall x, i = Some x -> srcok x.
   Proof. intros H x ->. destruct x; try discriminate. constructor. Qed.
@@ -966,6 +1113,9 @@ Section C.
     - apply andb_prop in H. destruct H as [H He]. destruct el; constructor.
       + apply HL; exact He.
       + apply andb_prop in He. destruct He as [_ He]. apply IH; exact He.
+    - apply andb_prop in H. destruct H as [Hi Hc]. apply init_ok_srcok; exact Hi.
+    - apply andb_prop in H. destruct H as [Hi Hc]. apply Forall_forall. intros lb Hlb.
+      rewrite forallb_forall in Hc. specialize (Hc lb Hlb). apply clause_ok_inv in Hc. apply HL. tauto.
     - apply andb_prop in H. destruct H as [H Hb]. apply andb_prop in H. destruct H as [Hi Hp]. apply init_ok_srcok; exact Hi.
     - apply andb_prop in H. destruct H as [H Hb]. apply andb_prop in H. destruct H as [Hi Hp]. apply init_ok_srcok; exact Hp.
     - apply andb_prop in H. destruct H as [H Hb]. apply HL; exact Hb.
@@ -974,20 +1124,6 @@ Section C.
 
   Lemma supps_srcok k l : supps k l = true -> Forall srcok l.
   Proof. intros H. apply Forall_forall. intros x Hx. eapply supp_srcok. unfold supps in H. rewrite forallb_forall in H. eauto. Qed.
-
-  Lemma supp_mono k : forall s, supp k s = true -> supp (S k) s = true.
-  Proof.
-    induction k as [|k IH]; intros s H; [discriminate|].
-    assert (HL : forall l, forallb (supp k) l = true -> forallb (supp (S k)) l = true).
-    { intros l Hl. rewrite forallb_forall in *. intros x Hx. apply IH. auto. }
-    rewrite supp_S in H. rewrite (supp_S (S k)).
-    destruct s; try discriminate; auto.
-    - apply andb_prop in H. destruct H as [H He]. apply andb_prop in H. destruct H as [Hi Ht].
-      rewrite Hi, (HL _ Ht). cbn [andb]. destruct el; auto.
-      apply andb_prop in He. destruct He as [He1 He2]. rewrite He1, (IH _ He2). reflexivity.
-    - apply andb_prop in H. destruct H as [H Hb]. apply andb_prop in H. destruct H as [Hi Hp].
-      rewrite Hi, Hp, (HL _ Hb). reflexivity.
-  Qed.
 
   (* ================= pass2 is a forward simulation ================= *)
   Lemma rw_stmts_S f ss cur :
@@ -1086,6 +1222,30 @@ Section C.
        end).
   Proof. reflexivity. Qed.
 
+  Definition rw_cases (f : nat) : list (clabel * list stmt) -> res (list (clabel * list stmt) * bool) :=
+    fix go (l : list (clabel * list stmt)) : res (list (clabel * list stmt) * bool) :=
+      match l with
+      | [] => OK ([], true)
+      | (lab, b) :: r =>
+          cb <- rw_stmts f b (mkBlock KSwitch) ;;
+          rr <- go r ;;
+          OK ((lab, bstmts cb) :: fst rr, mustNoYield cb && snd rr)
+      end.
+
+  Lemma rw_switch_S f s init tag cases cur k :
+    rw_switch (S f) s init tag cases cur k =
+      (cs <- rw_cases f cases ;;
+       let '(cases', allTrivial) := cs in
+       if negb (hasYo init) && allTrivial then c <- push cur s KTrivial ;; k c else
+       let after := fun (c2 : blk) =>
+         if allTrivial then c3 <- push c2 (SSwitch None tag cases) KTrivial ;; k c3
+         else comb c2 (fun c3 => c4 <- push c3 (SSwitch None tag cases') KSwitch ;; k c4) in
+       match init with
+       | None => after cur
+       | Some i => rw_stmt f i false cur after
+       end).
+  Proof. reflexivity. Qed.
+
   Lemma init_ok_hasYo i : init_ok i = true -> hasYo i = false.
   Proof. destruct i as [[]|]; try discriminate; reflexivity. Qed.
 
@@ -1125,9 +1285,13 @@ Section C.
     (forall k init c post b cur kk rest B, supp k (SFor init c post b) = true -> supps k rest = true ->
         Forall srcok (bstmts cur) -> combineRequired cur = false -> Kspec' kk rest ->
         rw_for f (SFor init c post b) init c post b cur kk = OK B ->
-        forall n w r, Nseq n (bstmts cur) (SFor init c post b :: rest) w = Some r -> exists m, N m (bstmts B) w = Some r).
+        forall n w r, Nseq n (bstmts cur) (SFor init c post b :: rest) w = Some r -> exists m, N m (bstmts B) w = Some r) /\
+    (forall k init tag cases cur kk rest B, supp k (SSwitch init tag cases) = true -> supps k rest = true ->
+        Forall srcok (bstmts cur) -> combineRequired cur = false -> Kspec' kk rest ->
+        rw_switch f (SSwitch init tag cases) init tag cases cur kk = OK B ->
+        forall n w r, Nseq n (bstmts cur) (SSwitch init tag cases :: rest) w = Some r -> exists m, N m (bstmts B) w = Some r).
   Proof.
-    induction f as [|f [IH1 [IH2 [IH3 IH4]]]]; [repeat split; intros; discriminate|].
+    induction f as [|f [IH1 [IH2 [IH3 [IH4 IH5]]]]]; [repeat split; intros; discriminate|].
     (* sub-blocks: a rewritten statement list simulates the source list *)
     assert (Hsub : forall k l kd B, supps k l = true -> rw_stmts f l (mkBlock kd) = OK B -> sim l (bstmts B)).
     { intros k l kd B Hl HB n w r H. eapply (IH1 k l (mkBlock kd)); [exact Hl|apply Forall_nil|reflexivity|exact HB|]. apply Nseq_empty. exact H. }
@@ -1181,6 +1345,12 @@ Section C.
         destruct isLast.
         -- rewrite (Hlast eq_refl) in *. eapply Kspec_nil_gln; [left; exact HB'|exact Hm].
         -- eapply Hk; [exact Hbinv|exact HB'|exact Hm].
+      + (* switch *)
+        eapply (IH5 (S k) ini tag cases cur _ rest B); [rewrite supp_S; exact Hs|exact Hrest|exact Hcur|exact Hcr| |exact HB].
+        intros c0 B0 Hinv HB0 n w r H.
+        destruct isLast; [|eapply Hk; eauto].
+        destruct (lastKind c0) as [[]|]; try (eapply Hk; eauto; fail).
+        rewrite (Hlast eq_refl) in *. eapply Kspec_nil_gln; [left; exact HB0|exact H].
       + (* for *)
         eapply (IH4 (S k)); eauto.
       + (* break *)
@@ -1247,6 +1417,49 @@ Section C.
         destruct init as [i|].
         * destruct i; try discriminate.
           intros n w r H. destruct (@Nseq_sim_rest _ _ _ _ _ _ (sim_for_init (SAtom a) c post b rest) H) as [n1 H1].
+          destruct f as [|f']; [discriminate|]. rewrite rw_stmt_S in HB'.
+          destruct (bind_ok _ _ HB') as [c1 [Hc1 HkB]].
+          destruct (@Nseq_shift _ _ _ _ _ _ Hcur (ok_atom a) H1) as [m Hm].
+          eapply Hafter; [eapply (@binv_push_triv cur (SAtom a) c1); [exact Hcur|constructor|exact Hc1]|exact HkB|]. rewrite (push_stmts _ _ _ Hc1). exact Hm.
+        * intros n w r H. eapply (Hafter cur B); [left; split; assumption|exact HB'|exact H].
+    - (* rw_switch *)
+      intros k init tag cases cur kk rest B Hs Hrest Hcur Hcr Hk HB.
+      destruct k as [|k]; [discriminate|]. pose proof Hs as Hs0. rewrite supp_S in Hs.
+      apply andb_prop in Hs. destruct Hs as [Hi Hc].
+      assert (Hsrc : srcok (SSwitch init tag cases)) by (eapply supp_srcok; exact Hs0).
+      rewrite rw_switch_S in HB. destruct (bind_ok _ _ HB) as [[cases' allTrivial] [Hcs HB']]. clear HB.
+      rewrite (init_ok_hasYo _ Hi) in HB'. cbn [negb andb] in HB'.
+      (* clause by clause *)
+      assert (Hrel : Forall2 crelS cases cases').
+      { clear - Hc Hcs Hsub. revert cases' allTrivial Hcs. induction cases as [|[lab b] r IHr]; intros cases' allTrivial Hcs.
+        - cbn in Hcs. inversion Hcs; subst. constructor.
+        - cbn [rw_cases] in Hcs. fold (rw_cases f) in Hcs.
+          destruct (bind_ok _ _ Hcs) as [cb [Hcb Hcs']]. destruct (bind_ok _ _ Hcs') as [[r' tr] [Hr' Hcs'']].
+          inversion Hcs''; subst. cbn [forallb snd] in Hc. apply andb_prop in Hc. destruct Hc as [Hb Hr].
+          apply clause_ok_inv in Hb. destruct Hb as [Hb1 [Hb2 [Hb3 Hb4]]].
+          constructor; [|eapply IHr; eauto]. cbn [fst].
+          split; [reflexivity|]. split; [eapply Hsub; eauto|]. split; [eapply supps_srcok; exact Hb1|].
+          intros n w w'. split.
+          + intros E. assert (Hf : fitsb (S k) (SBlock b) = true) by exact Hb2.
+            pose proof (@has_break_sound _ _ _ aden cden tden kval yden env (S k) (SBlock b) (S n) w Hf Hb3) as Hnb.
+            rewrite exec_S in Hnb. eapply Hnb; eauto.
+          + intros E. pose proof (proj1 (proj2 (ok_exec U V P aden cden tden kval yden env n)) k true true false b w _ Hb4 E) as Hok.
+            cbn in Hok. discriminate. }
+      destruct allTrivial.
+      + destruct (bind_ok _ _ HB') as [c1 [Hc1 HkB]]. intros n w r H.
+        destruct (@Nseq_shift _ _ _ _ _ _ Hcur Hsrc H) as [m Hm].
+        eapply Hk; [eapply binv_push_triv; eauto|exact HkB|]. rewrite (push_stmts _ _ _ Hc1). exact Hm.
+      + set (k' := fun c3 => c4 <- push c3 (SSwitch None tag cases') KSwitch ;; kk c4) in HB'.
+        assert (Hk' : Kspec0 k' (SSwitch None tag cases :: rest)).
+        { intros c3 B3 Hc3 _ HB3 n w r H. unfold k' in HB3. destruct (bind_ok _ _ HB3) as [c4 [Hc4 HkB]].
+          assert (Hsrc0 : srcok (SSwitch None tag cases)).
+          { inversion Hsrc; subst. constructor; auto. intros x Hx; discriminate. }
+          destruct (@Nseq_shift_sim _ _ _ _ _ _ _ Hc3 Hsrc0 (@sim_switch tag cases cases' Hrel) H) as [m Hm].
+          eapply Hk; [eapply binv_push_nontriv; eauto; discriminate|exact HkB|]. rewrite (push_stmts _ _ _ Hc4). exact Hm. }
+        pose proof (comb_spec Hk') as Hafter.
+        destruct init as [i|].
+        * destruct i; try discriminate.
+          intros n w r H. destruct (@Nseq_sim_rest _ _ _ _ _ _ (sim_switch_init (SAtom a) tag cases rest) H) as [n1 H1].
           destruct f as [|f']; [discriminate|]. rewrite rw_stmt_S in HB'.
           destruct (bind_ok _ _ HB') as [c1 [Hc1 HkB]].
           destruct (@Nseq_shift _ _ _ _ _ _ Hcur (ok_atom a) H1) as [m Hm].
